@@ -3399,6 +3399,10 @@ sf_set_chunk (SNDFILE * sndfile, const SF_CHUNK_INFO * chunk_info)
 	if (chunk_info == NULL || chunk_info->data == NULL)
 		return SFE_BAD_CHUNK_PTR ;
 
+	/* Custom chunks live in the header : once audio has been written a bigger header would overwrite it. */
+	if (psf->have_written)
+		return SFE_CMD_HAS_DATA ;
+
 	if (psf->set_chunk)
 		return psf->set_chunk (psf, chunk_info) ;
 
